@@ -1,14 +1,37 @@
 (* Properties/C03.v — ${name} references become XPaths that reach the named question's node.  Statements only. *)
-Require Import PX.Base.Str PX.Model.Tree PX.Model.Refs PX.Model.RefsClean PX.Proofs.RefsClean.
+Require Import PX.Base.Str PX.Model.Tree PX.Model.Refs PX.Model.RefsClean PX.Proofs.RefsClean PX.Proofs.RefsEq.
+
+(* The model of survey.py's own computation — which slices path TEXT by len(), loops with an IndexError arm, and picks the context
+   parent as the code does (Model/Refs.v, the code after fixes 03277b0 and b68def5) — IS the component-list resolution, for EVERY tree
+   whose names are non-empty and slash-free, every referrer and every target.  (On the unrepaired code this equality is false:
+   findings F5 and F30 are its counterexamples.) *)
+Theorem C03_model_is_component_resolution : forall root c t, names_ok root ->
+  resolve_in_tree root c t false false false = clean_resolve_text root c t.
+Proof. exact resolve_is_clean. Qed.
+Print Assumptions C03_model_is_component_resolution.
 
 (* Whenever a reference is resolved to a relative path (steps times "..", then a path down), evaluating it from the
    referrer's node C yields exactly the target's node T — for EVERY placement of referrer and target in every tree of
    groups and repeats, any depth.  Hypothesis: the target is not an ancestor-or-self of the referrer (true of every
    question target: questions have no children). *)
-Theorem C03_reaches_partial : forall (reps : list path) (C T : path) steps down,
+Theorem C03_reaches : forall (reps : list path) (C T : path) steps down,
   clean_resolve reps C T = Some (steps, down) -> is_prefix T C = false -> go C steps down = T.
 Proof. exact clean_reaches. Qed.
-Print Assumptions C03_reaches_partial.
+Print Assumptions C03_reaches.
+
+(* the two together, on the string-faithful model: the text it emits for a reference is either the target's absolute path or the
+   rendering of a relative path that leads from the referrer's node to the target's node *)
+Theorem C03_emitted_path_reaches_target : forall root c t C T, names_ok root ->
+  find_paths c [] root = [C] -> find_paths t [] root = [T] -> is_prefix T C = false ->
+  resolve_in_tree root c t false false false = [32%N] ++ path_text T ++ [32%N] \/
+  exists steps down, resolve_in_tree root c t false false false = [32%N] ++ join_sl (repeat dotdot steps) ++ [SL] ++ join_sl down ++ [32%N]
+                     /\ go C steps down = T.
+Proof.
+  intros root c t C T Hok HC HT Hanc. rewrite (resolve_is_clean root c t Hok). unfold clean_resolve_text. rewrite HC, HT.
+  destruct (clean_resolve (repeat_paths [] root) C T) as [[steps down]|] eqn:E; [right|left; reflexivity].
+  exists steps, down. split; [reflexivity|]. exact (clean_reaches _ C T steps down E Hanc).
+Qed.
+Print Assumptions C03_emitted_path_reaches_target.
 
 (* the reference is relative whenever the target's innermost enclosing repeat also encloses the referrer *)
 Theorem C03_relative_when_required : forall (reps : list path) (C T xp : path),
@@ -17,16 +40,14 @@ Theorem C03_relative_when_required : forall (reps : list path) (C T xp : path),
 Proof. exact clean_relative_when_required. Qed.
 Print Assumptions C03_relative_when_required.
 
-(* `partial`: the theorems are about the component-list resolution (Model/RefsClean.v).  The string-faithful model of
-   survey.py (Model/Refs.v) and the implementation are shown equal to it by evaluation on every generated layout (ops
-   D.var_repl, D.var_repl_clean), not by proof: the code slices path TEXT by len(), and equality with component
-   arithmetic is not derivable in general (it failed for prefix-named sibling repeats: finding F5, repaired). *)
-
-(* non-vacuity: context /d/o/s/c, target /d/o/r/t with repeats o, r, s: two steps up to o, then r/t *)
+(* non-vacuity: context /d/o/s/c, target /d/o/r/t with repeats o, r, s: two steps up to o, then r/t; and the layout of finding F30 *)
 Definition n (c : N) : str := [c].
 Theorem C03_nonvacuous :
   clean_resolve [[n 100; n 111]; [n 100; n 111; n 114]; [n 100; n 111; n 115]] [n 100; n 111; n 115; n 99] [n 100; n 111; n 114; n 116]
     = Some (2, [n 114; n 116])
-  /\ go [n 100; n 111; n 115; n 99] 2 [n 114; n 116] = [n 100; n 111; n 114; n 116].
-Proof. vm_compute. split; reflexivity. Qed.
+  /\ go [n 100; n 111; n 115; n 99] 2 [n 114; n 116] = [n 100; n 111; n 114; n 116]
+  /\ resolve_in_tree (G (n 100) false false [R (n 111) false [G [122;122;122;122;97]%N false false [Q (n 113) true true];
+                                                                R (n 97) false [R (n 98) false [Q (n 99) true false]]]]) (n 99) (n 113) false false false
+     = [32;46;46;47;46;46;47;46;46;47;122;122;122;122;97;47;113;32]%N.
+Proof. vm_compute. repeat split; reflexivity. Qed.
 Print Assumptions C03_nonvacuous.
